@@ -64,7 +64,7 @@ func irrelevantCap(r *rand.Rand, with string) CapSpec {
 }
 
 var defectKinds = []string{"forged", "tamper-aud", "tamper-cap", "tamper-exp", "tamper-sig", "tamper-nbf0", "tamper-nnc0", "tamper-ver", "misaligned",
-	"foreign-resource", "other-ability", "non-owner-root", "expired", "too-early", "missing-block", "near-ability"}
+	"foreign-resource", "extended-resource", "other-ability", "non-owner-root", "expired", "too-early", "missing-block", "near-ability"}
 
 type chainInfo struct {
 	Depth   int
@@ -265,6 +265,12 @@ func chainWorldIn(r *rand.Rand, id int, seed int64, k chainKnobs, cast *Cast, pr
 				for ci := range sp.Caps {
 					sp.Caps[ci].With = foreign
 				}
+			case "extended-resource":
+				// a resource that merely STARTS WITH the one the cited proof grants (a longer DID, a path below it): not contained
+				ext := with + pick(r, []string{".evil.org", "/sub", "x", ":more", "#frag"})
+				for ci := range sp.Caps {
+					sp.Caps[ci].With = ext
+				}
 			case "other-ability":
 				if isInv {
 					applied = false
@@ -284,8 +290,10 @@ func chainWorldIn(r *rand.Rand, id int, seed int64, k chainKnobs, cast *Cast, pr
 			case "non-owner-root":
 				if i != 1 {
 					applied = false
-				} else {
+				} else if r.Intn(2) == 0 {
 					sp.Issuer = mallory
+				} else {
+					sp.Issuer = service // the service itself is not the owner either (nothing it issues roots a chain on others' resources)
 				}
 			case "expired":
 				e := now - 100000
@@ -359,6 +367,27 @@ func chainWorldIn(r *rand.Rand, id int, seed int64, k chainKnobs, cast *Cast, pr
 			}
 			if r.Intn(8) == 0 { // duplicate citation of the real proof
 				sp.Proofs = append(sp.Proofs, sp.Proofs[len(sp.Proofs)-1])
+			}
+			if r.Intn(6) == 0 && prev != "" {
+				// the real proof is cited twice: first as a SHALLOW copy (only its root block came along), then in full
+				for pi := range sp.Proofs {
+					if sp.Proofs[pi].Tok == prev && sp.Proofs[pi].Inline {
+						sp.Proofs = append(append(append([]ProofRef{}, sp.Proofs[:pi]...), ProofRef{Tok: prev, Inline: true, Shallow: true}), sp.Proofs[pi:]...)
+						info.Decoys++
+						break
+					}
+				}
+			}
+			if r.Intn(6) == 0 {
+				// a block that is well-formed DAG-CBOR but not a UCAN, cited and embedded as a proof next to the real ones
+				nn := fmt.Sprintf("%snotucan%d", prefix, i)
+				w.Specs = append(w.Specs, &TokSpec{Name: nn, NotUCAN: true})
+				if r.Intn(2) == 0 {
+					sp.Proofs = append([]ProofRef{{Tok: nn, Inline: true}}, sp.Proofs...)
+				} else {
+					sp.Proofs = append(sp.Proofs, ProofRef{Tok: nn, Inline: true})
+				}
+				info.Decoys++
 			}
 		}
 		w.Specs = append(w.Specs, sp)
